@@ -153,6 +153,28 @@ for i in range(nbase):
                     compare("C04:vector-vs-scalar", "entry %d of %s vs %s" % (j_w, t6, t7), [f[0] for f in f7],
                             [f[j_w] for f in f6], scales_for(seq, rho, wj), tol=1e-13)
 
+            # the same wavelengths as a column and as a row: however the outputs are shaped, they hold one entry
+            # per wavelength, in order, equal to the entries of the flat vector call
+            if n >= 2 and i % 6 == 0:
+                import numpy as _np
+                from periodictable import nsf as _nsf
+                for shape in ((n, 1), (1, n)):
+                    arr = _np.array([float(x) for x in ws]).reshape(shape)
+                    t8 = "neutron_scattering(%r, density=%r, wavelength=array of shape %r %r)" % (seq, float(rho), shape, [float(x) for x in ws])
+                    stats["shaped_vectors"] = stats.get("shaped_vectors", 0) + 1
+                    try:
+                        r8 = _nsf.neutron_scattering(seq, density=float(rho), wavelength=arr)
+                        outs = [_np.ravel(_np.asarray(v, dtype=float)) for v in list(r8[0]) + list(r8[1]) + [r8[2]]]
+                    except Exception as e:  # noqa
+                        fail("C04:vector-shape", "%s raises %s: %s" % (t8, type(e).__name__, e), call=t8)
+                        continue
+                    if any(o.size != n for o in outs):
+                        fail("C04:vector-shape", "%s: outputs hold %r entries for %d wavelengths" % (t8, [int(o.size) for o in outs], n), call=t8)
+                        continue
+                    for j_w in range(n):
+                        compare("C04:vector-vs-scalar", "entry %d of %s vs the flat vector call" % (j_w, t8), [f[j_w] for f in f6],
+                                [float(o[j_w]) for o in outs], scales_for(seq, rho, ws[j_w]), tol=1e-13)
+
 # ---------------------------------------------------------------- Formula objects with their own density
 stats["formula_objects"] = 0
 
